@@ -791,5 +791,76 @@ pub proof fn lemma_Hs_is_mulHs(h: Seq<F>, x: Seq<F>, w: Seq<F>, eta: F, i: int)
     assert(((D * 2real) * wi + 1real * sx) * ee == ee * (2real * (wi * D) + sx)) by(nonlinear_arith);
 }
 
+// ---- (iv) C13: Nesterov-Todd identities  W z = W^{-1} s = lambda  for the w, eta, lambda that update_scaling writes
+pub open spec fn interior(z: Seq<F>) -> bool { z.len() >= 1 && z[0].v() > 0real && resid_r(z) > 0real }
+pub proof fn lemma_sq_inj(a: real, b: real) requires a >= 0real, b >= 0real, a * a == b * b ensures a == b
+{
+    assert((a - b) * (a + b) == a * a - b * b) by(nonlinear_arith);
+    if a + b == 0real { } else {
+        assert(a - b == 0real) by(nonlinear_arith) requires (a - b) * (a + b) == 0real, a + b != 0real;
+    }
+}
+pub proof fn lemma_sq_pos(a: real, b: real) requires a >= 0real, a * a == b, b > 0real ensures a > 0real
+{
+    if a == 0real { assert(a * a == 0real) by(nonlinear_arith) requires a == 0real; }
+}
+// sqrt_resid of an interior point: the positive root of the residual
+pub proof fn lemma_nt_scale(z: Seq<F>)
+    requires z.len() >= 1, resid_r(z) > 0real,
+    ensures sqrt_resid(z).v() > 0real, sqrt_resid(z).v() * sqrt_resid(z).v() == resid_r(z), !f_eq(sqrt_resid(z), f_zero()),
+{
+    broadcast use real_arith, real_sqrt;
+    lemma_resid_real(z);
+    lemma_sq_pos(f_sqrt(soc_resid(z)).v(), resid_r(z));
+}
+// update_scaling returned true  ==>  the unnormalised w is interior as well
+pub proof fn lemma_nt_success(s: Seq<F>, z: Seq<F>)
+    requires s.len() >= 1, !f_eq(us_ws(s, z), f_zero()),
+    ensures resid_r(us_wa(s, z)) > 0real,
+{
+    broadcast use real_arith;
+    lemma_resid_real(us_wa(s, z));
+}
+pub proof fn lemma_nt_wa_entries(s: Seq<F>, z: Seq<F>)
+    requires s.len() >= 1, z.len() == s.len(), resid_r(s) > 0real, resid_r(z) > 0real,
+    ensures ({
+        let wa = us_wa(s, z); let is = 1real / sqrt_resid(s).v(); let iz = 1real / sqrt_resid(z).v();
+        &&& wa.len() == s.len()
+        &&& wa[0].v() == is * s[0].v() + iz * z[0].v()
+        &&& forall|i: int| 1 <= i < s.len() ==> #[trigger] wa[i].v() == is * s[i].v() + (-iz) * z[i].v()
+    }),
+{
+    broadcast use real_arith;
+    lemma_nt_scale(s); lemma_nt_scale(z);
+    let ss = sqrt_resid(s).v(); let zs = sqrt_resid(z).v(); let is = 1real / ss; let iz = 1real / zs;
+    let z0 = z[0].v();
+    assert(z0 / zs == iz * z0) by(nonlinear_arith) requires iz == 1real / zs, zs > 0real;
+    let wa = us_wa(s, z);
+    assert(wa[0].v() == s[0].v() * is + z0 / zs);
+    assert(s[0].v() * is == is * s[0].v()) by(nonlinear_arith);
+    assert forall|i: int| 1 <= i < s.len() implies #[trigger] wa[i].v() == is * s[i].v() + (-iz) * z[i].v() by {
+        let si = s[i].v();
+        assert(wa[i].v() == (-iz) * z[i].v() + 1real * (si * is));
+        assert(si * is == is * si) by(nonlinear_arith);
+    }
+}
+// a = c1 p + c2 q entry-wise:  <a, p> = c1 <p,p> + c2 <p,q>,  <a, q> = c1 <p,q> + c2 <q,q>,  <a, a> = c1 <a,p> + c2 <a,q>
+pub proof fn lemma_rdot_lincomb(a: Seq<F>, p: Seq<F>, q: Seq<F>, c1: real, c2: real, k: int)
+    requires 0 <= k, forall|i: int| 0 <= i < k ==> #[trigger] a[i].v() == c1 * p[i].v() + c2 * q[i].v(),
+    ensures
+        rdot(a, p, k) == c1 * rdot(p, p, k) + c2 * rdot(p, q, k),
+        rdot(a, q, k) == c1 * rdot(p, q, k) + c2 * rdot(q, q, k),
+        rdot(a, a, k) == c1 * rdot(a, p, k) + c2 * rdot(a, q, k),
+{
+    lemma_rdot_lin(p, a, p, q, c1, c2, k); lemma_rdot_sym(a, p, k);
+    lemma_rdot_lin(q, a, p, q, c1, c2, k); lemma_rdot_sym(a, q, k); lemma_rdot_sym(q, p, k);
+    lemma_rdot_lin(a, a, p, q, c1, c2, k);
+}
+pub proof fn lemma_vm_sumsq_real(a: Seq<F>) ensures vm_sumsq(a).v() == rdot(a, a, a.len() as int)
+{
+    reveal(vm_sumsq);
+    lemma_fold_dot_real(a, a, a.len() as int);
+}
+
 } // verus!
 fn main() {}
